@@ -1979,7 +1979,7 @@ class TensorDict(TensorDictBase):
         )
         if self._has_names():
             names = self.names
-            names = [names[i] for i in dims_list]
+            names = [names[i] for i in dims_list] + names[len(dims_list) :]
         else:
             names = None
         result = self._fast_apply(
